@@ -147,7 +147,7 @@ func drawEncCase(t *rapid.T) encCase {
 		c.Type = gen.StructType(t, typeOptsForTier(), 1)
 	}
 	c.GoType = c.Type.GoString()
-	n := rapid.IntRange(0, 8).Draw(t, "nrecords")
+	n := gen.UniformRange(t, "nrecords", 0, 8)
 	c.Records = gen.Records(t, c.Type, n, gen.ValueOpts{})
 	c.Compression = drawCompression(t)
 	c.BlockSize = rapid.SampledFrom([]int{0, 1, 7, 16, 40, 100, 400, 1 << 20}).Draw(t, "blocksize")
